@@ -769,6 +769,22 @@ def graph_doc(rng, shape, n, same_bare_names=False, cyclic=False, kinds=('>', '<
             tc = am.Column(nm('rk', 'bare'), am.ColType('plain', 'int'))
             T.columns.append(tc)
             tc.inline_refs.append(am.InlineRef('<', h, hc.name))
+    # aliases; sometimes the alias of a key-holding table is spelled like ANOTHER table's name (legal: the keys differ)
+    for t in doc.tables:
+        if rng.random() < 0.25:
+            t.alias = nm('al', 'bare')
+    if edges and n >= 3 and rng.random() < 0.15:
+        h = doc.tables[rng.choice(edges)[0]]
+        others = [t for t in doc.tables if t is not h and t.schema == 'public' and not any(x is not t and x.name == t.name for x in doc.tables)]
+        if others:
+            h.alias = rng.choice(others).name
+            doc.classes.add('alias-shadow')
+    # an enum called like one of the tables (same schema), used as a column type
+    if rng.random() < 0.12:
+        t0 = rng.choice(doc.tables)
+        doc.enums.append(am.Enum(t0.schema, t0.name, [am.EnumItem(nm('ei', 'bare'))]))
+        rng.choice(doc.tables).columns.append(am.Column(nm('ec', 'bare'), am.ColType('enum', enum=0)))
+        doc.classes.add('enum-named-like-table')
     # a few standalone (non-inline) references and a many-to-many: they must not influence the order clause
     if n >= 2 and rng.random() < 0.5:
         a, b = rng.sample(range(n), 2)
